@@ -292,7 +292,13 @@ pub fn malform_hint(g: &mut Prng, p: &Params, y: &[u8], mal: HintMal) -> Option<
             let (lo, hi) = bounds(i);
             let pos = lo + g.below((hi - lo - 1) as u64) as usize;
             if mal == HintMal::Duplicate {
-                out[pos + 1] = out[pos];
+                // either copy the earlier index up or the later index down (the latter can repeat the
+                // largest index of the polynomial, e.g. [.., 255, 255])
+                if g.below(2) == 0 {
+                    out[pos + 1] = out[pos];
+                } else {
+                    out[pos] = out[pos + 1];
+                }
             } else {
                 out.swap(pos, pos + 1);
             }
@@ -321,3 +327,38 @@ pub fn malform_hint(g: &mut Prng, p: &Params, y: &[u8], mal: HintMal) -> Option<
 
 /// Bit flip helper
 pub fn flip_bit(b: &mut [u8], bit: usize) { b[bit / 8] ^= 1 << (bit % 8); }
+
+
+/// Hint sections whose bytes ascend through the index area *and* the count area (so a decoder that
+/// trusts a count before bounding it keeps walking), with counts above omega.
+pub fn ascending_hint_sections(g: &mut Prng, p: &Params) -> Vec<Vec<u8>> {
+    let n = p.omega + p.k;
+    let mut out = Vec::new();
+    // y[j] = j + d
+    for d in [0usize, 1, 100, 255 - (n - 1)] {
+        out.push((0..n).map(|j| (j + d).min(255) as u8).collect());
+    }
+    // ascending indices, every count 255
+    let mut y: Vec<u8> = (0..n).map(|j| j as u8).collect();
+    for c in y[p.omega..].iter_mut() {
+        *c = 255;
+    }
+    out.push(y);
+    // ascending indices, first count omega (valid), later counts omega+1.. (ascending, too large)
+    let mut y: Vec<u8> = (0..n).map(|j| j as u8).collect();
+    for (i, c) in y[p.omega..].iter_mut().enumerate() {
+        *c = (p.omega + i) as u8;
+    }
+    out.push(y);
+    // random strictly increasing byte string over the whole section
+    for _ in 0..3 {
+        let mut vals: Vec<u8> = Vec::new();
+        let mut cur = g.below(256 - n as u64) as usize;
+        for _ in 0..n {
+            vals.push(cur.min(255) as u8);
+            cur += 1 + (g.below(2) as usize) * usize::from(cur + n < 250);
+        }
+        out.push(vals);
+    }
+    out
+}
